@@ -1376,21 +1376,29 @@ def target_worker_thread(host: str, port: int, shared_aconf: AuditConf) -> Tuple
     out = OutputBuffer()
     out.verbose = shared_aconf.verbose
     my_aconf = copy.deepcopy(shared_aconf)
-    my_aconf.host = host
-    my_aconf.port = port
 
     # If we're outputting JSON, turn off colors and ensure 'info' level messages go through.
     if my_aconf.json:
         out.json = True
         out.use_colors = False
 
-    out.v("Running against: %s:%d..." % (my_aconf.host, my_aconf.port), write_now=True)
     try:
+        my_aconf.host = host
+        my_aconf.port = port  # Raises ValueError if a target's port is out of range.
+
+        out.v("Running against: %s:%d..." % (my_aconf.host, my_aconf.port), write_now=True)
         ret = audit(out, my_aconf, print_target=True)
+        string_output = out.get_buffer()
+    except SystemExit as e:  # Some low-level errors (i.e.: an invalid packet from this target) terminate with sys.exit(); that must only end this target's scan, not the scans of the other targets.
+        ret = e.code if isinstance(e.code, int) else exitcodes.UNKNOWN_ERROR
         string_output = out.get_buffer()
     except Exception:
         ret = -1
         string_output = "An exception occurred while scanning %s:%d:\n%s" % (host, port, str(traceback.format_exc()))
+    finally:
+        # Worker threads are re-used for subsequent targets, so discard this thread's copy of the algorithm databases (they are modified while a target is analyzed); otherwise, findings from this target would leak into the next one.
+        SSH1_KexDB.thread_exit()
+        SSH2_KexDB.thread_exit()
 
     return ret, string_output
 
